@@ -53,7 +53,7 @@ CHECKS = {
 }
 
 # properties whose proof modules are merged into lean/ and whose check passes on the clean tree
-READY = ["C01", "C02", "C04", "C06", "C07", "C08", "C09", "C10", "C11", "C12", "C13", "C14", "C18", "C19", "C20"]
+READY = ["C01", "C02", "C03", "C04", "C06", "C07", "C08", "C09", "C10", "C11", "C12", "C13", "C14", "C15", "C18", "C19", "C20"]
 
 CHECKS.update({
     "C04": dict(
@@ -163,6 +163,31 @@ CHECKS.update({
         note="boost semantics are modelled (validated by correspondence), lexical_cast not modelled. Model after fix 957f9ea.",
         technique="Lean 4 proof (finite-map semantics of store/notify over the translated option table) + translator + correspondence",
         ref="DESIGN.md 7/C20"),
+})
+
+CHECKS.update({
+    "C03": dict(
+        text="Theorems: a kick moves the first moment of every interior line by minus its displacement (generated weights, "
+             "orders 2-4, all n, data); the zero bin of any shifted axis is the physical origin; the one-step centroid map "
+             "(RF kick then drift) has unit determinant, an invariant quadratic form (the orbit lies on one ellipse for every "
+             "k, positive definite for theta*tan(theta) < 4) and obeys c_{k+2} = (2 - theta*tan theta) c_{k+1} - c_k; over R "
+             "|2 - theta tan theta - 2 cos theta| <= theta^4 for 0 < theta <= 1/2 (phase advance theta(1+O(theta^2)): orbit "
+             "closed up to the splitting error). The real RF/drift maps rotate blobs for a period; the Lean model iterates "
+             "bitwise; main()'s RF arguments are tied by generated constructor calls.",
+        note="Float accumulation over a period is budgeted by the oracle. Sinusoidal model: small amplitudes, parameters per main()'s arithmetic (after fix ad03471).",
+        technique="Lean 4 proof (ring identities on translated weights, finite-sum reindexing, induction over steps, real-analysis bound) + bitwise iteration correspondence",
+        ref="DESIGN.md 7/C03"),
+    "C15": dict(
+        text="Theorems (ordered field): after KickMap::applyTo the coordinate along the kick is in [1, n-1] for every position, "
+             "displacement field and perpendicular coordinate; the clamp used by all Fokker-Planck tracking models has the same "
+             "range, hence every later array look-up index is < n; unclamped, the particle moves by minus the linearly "
+             "interpolated displacement, which is exactly the centroid shift of a bilinear blob placed on it (with "
+             "C03.kick_line_first_moment); stochastic model: mean relaxes to the zero-energy bin, variance fixed point "
+             "1/(delta^2 (1-e1/2)); the pre-fix recurrence drives the mean to row 0. Oracle: blob vs particle on the real "
+             "KickMap, ensembles under all four tracking models.",
+        note="PRNG not modelled (ensemble statistics measured). Model after fix 7ca92b2.",
+        technique="Lean 4 proof (order lemmas on min/max clamps, algebra of the stochastic recurrence) + bitwise correspondence of applyTo",
+        ref="DESIGN.md 7/C15"),
 })
 
 PENDING = {
